@@ -113,6 +113,10 @@ func (w scanWorld) mapWorld() *MapWorld {
 	}}
 }
 
+// scanRuneClasses: newline, carriage return, tab, an ordinary letter, plus every
+// other value the generated Scan compares a rune with.
+var scanExtraRunes []int64
+
 func scanWorlds() []scanWorld {
 	var ws []scanWorld
 	for _, v := range []int64{0, 7, 1} {
@@ -122,6 +126,19 @@ func scanWorlds() []scanWorld {
 		n string
 		r int64
 	}{{"newline", 10}, {"carriage return", 13}, {"tab", 9}, {"other", 65}} {
+		_ = rc
+	}
+	classes := []struct {
+		n string
+		r int64
+	}{{"newline", 10}, {"carriage return", 13}, {"tab", 9}, {"other", 65}}
+	for _, k := range scanExtraRunes {
+		classes = append(classes, struct {
+			n string
+			r int64
+		}{fmt.Sprintf("U+%04X", k), k})
+	}
+	for _, rc := range classes {
 		for _, v := range []int64{0, 7} {
 			ws = append(ws, scanWorld{name: fmt.Sprintf("rune %s, automaton dead, verdict=%s", rc.n, verdictName(v)), rune1: rc.r, v: v})
 			for _, acc := range []int64{7, 0} {
@@ -287,6 +304,12 @@ func checkScanTable(c *Ctx, p *Prog, dir, rule string) {
 	head := hs[0]
 	pos := p.FnPos(fn)
 	n := 0
+	scanExtraRunes = nil
+	for _, k := range comparedConstants(fn) {
+		if k > 1 && k != 10 && k != 13 && k != 9 && k != 65 && k < 0x110000 {
+			scanExtraRunes = append(scanExtraRunes, k)
+		}
+	}
 	for _, w := range scanWorlds() {
 		prints := 0
 		reg := scanRegion(fn, head, &prints)
